@@ -64,7 +64,7 @@ class SgzLoader2d(SgzLoader):
         block_offset = self.chunk_bytes * (min_id // self.blockshape[1])
         buffer = self._get_compressed_bytes(block_offset,
                                             self.chunk_bytes
-                                            * ((max_id + self.blockshape[1] - 1) // self.blockshape[1]))
+                                            * ((max_id - min_id + self.blockshape[1] - 1) // self.blockshape[1]))
         return self._decompress(buffer, (self.blockshape[1], self.shape_pad[2]))
 
     @lru_cache(maxsize=1)
